@@ -15,7 +15,7 @@ PLAN = dict(
                 "exposes authority-index and ordering errors that a single-signer example cannot."),
     level_note=NOTE_BASE,
     runs=[
-        dict(name="sig", run="^(TestPropSignatures|TestCorpus)$", checks=(700, 15000), shards=(2, 12), timeout=(300, 1800)),
+        dict(name="sig", run="^(TestPropSignatures|TestCorpus)$", checks=(700, 75000), shards=(2, 16), timeout=(300, 3600)),
     ],
     require=[("signatures", "signers-2"), ("signatures", "signers-3"), ("signatures", "via-file"), ("signatures", "verified"), ("signatures", "rejected-newverifier"),
              ("signatures", "rejected-exchange"), ("signatures", "has-uncovered"), ("signatures", "tamper:authority"), ("signatures", "tamper:auth-samekey-cert"), ("signatures", "time:end+1")],
